@@ -2,8 +2,8 @@ import AquaVerif.Proofs.RunLiftSum
 import AquaVerif.Proofs.RunClosedExample
 
 /-
-Work package Y: **non-vacuity of `Proofs/RunLift*.lean` on the `ℚ` examples**, and the
-counter-example behind the step bound in `run_summary_irrigation`.
+Work package Y: **non-vacuity of `Proofs/RunLift*.lean` on the `ℚ` examples**, including the run
+with fallow days after the harvest under the same season counter (`harvest_date_is_fallow`).
 
 * `cfgE wt` (`Proofs/RunClosedExample.lean`: the configuration of `Proofs/Run.lean` with water-table
   flag `wt`, 14-day window) satisfies the new configuration premises `CfgSurfOK`, `RainOK`,
@@ -14,10 +14,13 @@ counter-example behind the step bound in `run_summary_irrigation`.
 * `cfgS`: the same with a 3-day season (`harvest = [3]`): the run of three days finishes with one
   summary row `(season 0, step 2, IrrTot 30)`; `summary_example` instantiates the C06 theorems:
   `30 = 10 + 10 + 10`.
-* `cfgP`: two seasons, **off-season simulated**: the harvest date itself (step 3) is still a
-  growing-season day of season 0 with 10 mm of irrigation, *after* the summary row of season 0 was
-  written on step 2 with `IrrTot = 30` — which is why `run_summary_irrigation` sums the column up
-  to the row's step and not over all rows of the season (`post_harvest_irrigation`).
+* `cfgP`: two seasons, **off-season simulated**: the summary row of season 0 is written on step 2
+  (the day before the latest harvest date) with `IrrTot = 30`; the harvest date itself (step 3,
+  same season counter) is a fallow day — `growing_season = False`, `dap = 0`, no irrigation — so
+  the sum of the daily column over *all* rows of season 0 is the seasonal total
+  (`harvest_date_is_fallow`).  Before repository commit d260679 (growing-season test
+  `harvest_date >= step_start_time`) step 3 was a growing day with 10 mm of irrigation and this
+  file held the counter-example `post_harvest_irrigation` (sum 40 ≠ 30).
 -/
 
 set_option linter.unusedSectionVars false
@@ -181,10 +184,12 @@ theorem checkS_true : checkS = true := by decide +kernel
 
 /-- **the C06 theorems on a run with a summary row**: the row `(season 0, step 2)` reports
 `IrrTot = 30`, which is the sum `10 + 10 + 10` of the irrigation column over the three days of
-the season, and repeats the yields of the `crop_growth` row of step 2 -/
+the season (all its rows; equally the rows up to the harvest step), and repeats the yields of the `crop_growth` row of step 2 -/
 theorem summary_example :
     ∃ s, RunReach Fq2 Tq cfgS s ∧ s.summaryTable.length = 1 ∧
       (∀ x ∈ s.summaryTable, x.season = 0 ∧ x.tsc = 2 ∧ x.irrTot = 30 ∧
+        x.irrTot = ((s.fluxTable.filter (fun f => decide (f.season = x.season))).map
+          (·.irrDay)).sum ∧
         x.irrTot = ((s.fluxTable.filter
           (fun f => decide (f.season = x.season) && decide (f.tsc ≤ x.tsc))).map (·.irrDay)).sum ∧
         x.irrTot ≤ 1000 ∧
@@ -222,10 +227,11 @@ theorem summary_example :
       simp only [List.mem_singleton, Prod.mk.injEq] at hmem
       obtain ⟨e1, e2, e3⟩ := hmem
       exact ⟨e1, e2, e3, run_summary_irrigation validS initOK_S initIrr0_S hr x hx,
+        run_summary_irrigation_upto validS initOK_S initIrr0_S hr x hx,
         run_summary_total_le_max validS initOK_S hK (by decide) hr x hx,
         run_summary_yields hr x hx⟩
 
-/-! ### irrigation after the summary row (off-season simulated) -/
+/-! ### the fallow days after the summary row (off-season simulated) -/
 
 /-- two seasons (planting on days 0 and 6, latest harvest dates on days 3 and 9), off-season
 simulated -/
@@ -233,30 +239,47 @@ def cfgP : RunCfg ℚ :=
   { cfgq with clock := { n := 12, planting := [0, 6], harvest := [3, 9], offSeason := true,
                          season0 := 0 } }
 
+theorem validP : Valid cfgP.clock := by
+  show Valid { n := 12, planting := [0, 6], harvest := [3, 9], offSeason := true, season0 := 0 }
+  decide
+
+theorem initOK_P : InitOK cfgP := ⟨rfl, rfl, rfl, rfl⟩
+theorem initIrr0_P : InitIrr0 cfgP := ⟨rfl, rfl⟩
+
 def checkP : Bool :=
   match runInit cfgP with
   | .error _ => false
   | .ok s0 =>
-    match runStepsR Fq2 Tq cfgP 4 s0 with
+    match runStepsR Fq2 Tq cfgP 5 s0 with
     | .ok s => decide (s.finished = false ∧
         s.summaryTable.map (fun x => (x.season, x.tsc, x.irrTot)) = [(0, 2, 30)] ∧
-        s.fluxTable.map (fun f => (f.season, f.tsc, f.irrDay)) =
-          [(0, 0, 10), (0, 1, 10), (0, 2, 10), (0, 3, 10)] ∧
-        s.storageTable.map (·.gs) = [true, true, true, true])
+        s.fluxTable.map (fun f => (f.season, f.tsc, f.dap, f.irrDay)) =
+          [(0, 0, 1, 10), (0, 1, 2, 10), (0, 2, 3, 10), (0, 3, 0, 0), (0, 4, 0, 0)] ∧
+        s.storageTable.map (·.gs) = [true, true, true, false, false])
     | .error _ => false
 
 theorem checkP_true : checkP = true := by decide +kernel
 
-/-- **with the off-season simulated, the harvest date itself is still a growing-season day of the
-season whose summary row has already been written**: the summary row of season 0 is written on
-step 2 (the day before the latest harvest date) with `IrrTot = 30`; step 3 — same season counter,
-`growing_season = True` — applies another 10 mm.  The sum of the daily irrigation column over
-*all* rows of season 0 (40 mm) therefore differs from the seasonal total; `run_summary_irrigation`
-holds (for a `Valid` clock this configuration has) with the sum taken up to the row's step. -/
-theorem post_harvest_irrigation :
+/-- **with the off-season simulated, the latest harvest date is a fallow day of the season whose
+summary row has just been written**: the summary row of season 0 is written on step 2 (the day
+before the latest harvest date 3) with `IrrTot = 30`; steps 3 and 4 — same season counter — have
+`growing_season = False`, `dap = 0` and no irrigation, so the sum of the daily irrigation column
+over *all* rows of season 0 is `30`, the seasonal total (`run_summary_irrigation`, instantiated
+for this `Valid` configuration; `run_no_growing_day_after_harvest` for the two fallow days).
+Before repository commit d260679 step 3 was a growing day with 10 mm of irrigation (sum 40). -/
+theorem harvest_date_is_fallow :
     ∃ s, RunReach Fq2 Tq cfgP s ∧ Valid cfgP.clock ∧
       (∃ x ∈ s.summaryTable, x.season = 0 ∧ x.tsc = 2 ∧ x.irrTot = 30) ∧
-      ((s.fluxTable.filter (fun f => decide (f.season = 0))).map (·.irrDay)).sum = 40 := by
+      s.fluxTable.map (fun f => (f.season, f.tsc, f.dap, f.irrDay)) =
+        [(0, 0, 1, 10), (0, 1, 2, 10), (0, 2, 3, 10), (0, 3, 0, 0), (0, 4, 0, 0)] ∧
+      s.storageTable.map (·.gs) = [true, true, true, false, false] ∧
+      ((s.fluxTable.filter (fun f => decide (f.season = 0))).map (·.irrDay)).sum = 30 ∧
+      (∀ x ∈ s.summaryTable,
+        x.irrTot = ((s.fluxTable.filter (fun f => decide (f.season = x.season))).map
+          (·.irrDay)).sum) ∧
+      (∀ x ∈ s.summaryTable, ∀ d ∈ s.daysRev, d.D.season = x.season → x.tsc < d.D.tsc →
+        FallowDay d) ∧
+      (∃ d ∈ s.daysRev, d.D.season = 0 ∧ 2 < d.D.tsc) := by
   have hc := checkP_true
   unfold checkP at hc
   cases h0 : runInit cfgP with
@@ -264,31 +287,42 @@ theorem post_harvest_irrigation :
   | ok s0 =>
     rw [h0] at hc
     simp only at hc
-    cases h1 : runStepsR Fq2 Tq cfgP 4 s0 with
+    cases h1 : runStepsR Fq2 Tq cfgP 5 s0 with
     | error e => rw [h1] at hc; simp at hc
     | ok s =>
       rw [h1] at hc
       simp only [decide_eq_true_eq] at hc
-      obtain ⟨_, a2, a3, _⟩ := hc
-      have hr : RunReach Fq2 Tq cfgP s := runReach_runSteps 4 (RunReach.init h0) h1
-      have hv : Valid cfgP.clock := by
-        show Valid { n := 12, planting := [0, 6], harvest := [3, 9], offSeason := true,
-                     season0 := 0 }
-        decide
-      refine ⟨s, hr, hv, ?_, ?_⟩
+      obtain ⟨_, a2, a3, a4⟩ := hc
+      have hr : RunReach Fq2 Tq cfgP s := runReach_runSteps 5 (RunReach.init h0) h1
+      have hsum : ((s.fluxTable.filter (fun f => decide (f.season = 0))).map (·.irrDay)).sum
+          = 30 := by
+        have e : (s.fluxTable.filter (fun f => decide (f.season = 0))).map (·.irrDay) =
+            ((s.fluxTable.map (fun f => (f.season, f.tsc, f.dap, f.irrDay))).filter
+              (fun p => decide (p.1 = 0))).map (fun p => p.2.2.2) := by
+          rw [List.filter_map, List.map_map]
+          rfl
+        rw [e, a3]
+        norm_num [List.filter]
+      refine ⟨s, hr, validP, ?_, a3, a4, hsum,
+        run_summary_irrigation validP initOK_P initIrr0_P hr,
+        run_no_growing_day_after_harvest validP.wf initOK_P hr, ?_⟩
       · cases hs : s.summaryTable with
         | nil => rw [hs] at a2; simp at a2
         | cons x rest =>
           rw [hs] at a2
           simp only [List.map_cons, List.cons.injEq, Prod.mk.injEq] at a2
           exact ⟨x, List.mem_cons_self, a2.1.1, a2.1.2.1, a2.1.2.2⟩
-      · have e : (s.fluxTable.filter (fun f => decide (f.season = 0))).map (·.irrDay) =
-            ((s.fluxTable.map (fun f => (f.season, f.tsc, f.irrDay))).filter
-              (fun p => decide (p.1 = 0))).map (fun p => p.2.2) := by
-          rw [List.filter_map, List.map_map]
-          rfl
-        rw [e, a3]
-        norm_num [List.filter]
+      · -- the fallow day of step 3 exists among the recorded days
+        have hmem : ((0 : Int), 3, 0, (0 : ℚ)) ∈
+            s.fluxTable.map (fun f => (f.season, f.tsc, f.dap, f.irrDay)) := by
+          rw [a3]; simp
+        obtain ⟨f, hf, hfe⟩ := List.mem_map.mp hmem
+        obtain ⟨d, hd, rfl⟩ := mem_fluxTable.mp hf
+        obtain ⟨e1, e2, _⟩ := fullDay_row_keys (run_days hr d hd)
+        simp only [Prod.mk.injEq] at hfe
+        refine ⟨d, hd, by rw [← e2]; exact hfe.1, ?_⟩
+        rw [← e1, hfe.2.1]
+        decide
 
 end RunLiftExample
 end Aqua
@@ -297,4 +331,4 @@ end Aqua
 #print axioms Aqua.RunLiftExample.lift10
 #print axioms Aqua.RunLiftExample.lift_no_table
 #print axioms Aqua.RunLiftExample.summary_example
-#print axioms Aqua.RunLiftExample.post_harvest_irrigation
+#print axioms Aqua.RunLiftExample.harvest_date_is_fallow
